@@ -214,7 +214,9 @@ class _ReadSourceGenerator:
                     bits_remaining -= field.bits
 
                 yield from flush()
-                yield from align_to_field(field)
+                if bits_rollover:
+                    # Only the start of a storage unit is positioned, the other bit fields live inside the unit
+                    yield from align_to_field(field)
                 yield from self._generate_bits(field)
 
             # Everything else - basic and composite types (and arrays of them)
